@@ -326,8 +326,13 @@ class C13(Prop):
             elif tw.get("status") == "exc" and x.get("status") == "ok" and x.get("value") is not None:
                 pass
         # an object that is not part of the model any more (removed before the latest solve) has no multiplier
+        last_solve_ok = False
         for op_, o_ in zip(ops, outs):
-            if op_.get("_expect_raise") and o_.get("status") == "ok":
+            if op_["op"] == "solve":
+                # (judged after a solve that completed: a solve that raised before doing anything, e.g. on an unknown
+                # wrapper name that happens to be an installed package, forgets nothing)
+                last_solve_ok = o_.get("status") == "ok" and o_.get("value") is not None
+            if op_.get("_expect_raise") and o_.get("status") == "ok" and last_solve_ok:
                 viol.append({"oracle": "C13/fresh", "signature": "%s-of-an-object-removed-from-the-model-returns-a-number" % op_["op"],
                              "detail": {"h": op_["h"], "value": str(o_.get("value"))[:60]}})
         seen, out = set(), []
